@@ -27,17 +27,17 @@ IR_RUNS = {
                       ("MC", "naming", 1), ("MC", "body", 2)],
             "thorough": [("MC", "conn", 3), ("MC", "mirror", 2), ("MC", "mirror_add", 3), ("MC", "contain", 3),
                          ("MC", "body", 3), ("MC", "naming", 2), ("MC", "naming_edif", 2), ("MC", "naming_mix", 2)]},
-    "C10": {"quick": [("MC", "naming", 2), ("MC", "naming_edif", 2), ("MC", "naming_mix", 2), ("MC", "naming_two", 1), ("MC", "naming_adopt", 2), ("MC", "naming_adopt2", 2)],
-            "thorough": [("MC", "naming", 3), ("MC", "naming_edif", 3), ("MC", "naming_mix", 3), ("MC", "naming_two", 2), ("MC", "naming_adopt", 3), ("MC", "naming_adopt2", 3)]},
+    "C10": {"quick": [("MC", "naming", 2), ("MC", "naming_edif", 2), ("MC", "naming_mix", 2), ("MC", "naming_two", 1), ("MC", "naming_adopt", 2), ("MC", "naming_adopt2", 2), ("MC", "naming_long", 1)],
+            "thorough": [("MC", "naming", 3), ("MC", "naming_edif", 3), ("MC", "naming_mix", 3), ("MC", "naming_two", 2), ("MC", "naming_adopt", 3), ("MC", "naming_adopt2", 3), ("MC", "naming_long", 2)]},
 }
 IR_LISTENERS = {"C19": "A"}
 IR_RUNS.update({
-    "C11": {"quick": [("MC", "hier_ghost", 1), ("MC", "hier_deep", 0), ("MC", "hier11", 2), ("MC", "hier11", 10, 30), ("MC", "hier_edit", 1), ("MC", "hier_edit", 8, 20),
+    "C11": {"quick": [("MC", "hier_ghost", 1), ("MC", "hier_deep", 0), ("MC", "hier_twice", 0), ("MC", "hier11", 2), ("MC", "hier11", 10, 30), ("MC", "hier_edit", 1), ("MC", "hier_edit", 8, 20),
                       ("MC", "hier_walk", 12, 40)],
-            "thorough": [("MC", "hier_ghost", 1), ("MC", "hier_deep", 0), ("MC", "hier11", 4), ("MC", "hier11", 12, 600), ("MC", "hier_edit", 2),
+            "thorough": [("MC", "hier_ghost", 1), ("MC", "hier_deep", 0), ("MC", "hier_twice", 0), ("MC", "hier11", 4), ("MC", "hier11", 12, 600), ("MC", "hier_edit", 2),
                          ("MC", "hier_edit", 10, 400), ("MC", "hier_walk", 16, 1500)]},
     "C07": {"quick": [("MC", "clone", 2), ("MC", "clone_top", 1), ("MC", "clone_edit", 0)],
-            "thorough": [("MC", "clone", 5), ("MC", "clone", 10, 60), ("MC", "clone_top", 3), ("MC", "clone_edit", 1)]},
+            "thorough": [("MC", "clone", 4), ("MC", "clone", 10, 60), ("MC", "clone_top", 3), ("MC", "clone_edit", 1)]},
     "C06": {"quick": [("MC", "vlog_read", 2), ("MC", "vlog_read", 10, 14), ("MC", "vlog_decl", 0), ("MC", "vlog_assign", 1), ("MC", "vlog_alias", 2), ("FILES", "vlog_file", 6000)],
             "thorough": [("MC", "vlog_read", 3), ("MC", "vlog_read", 12, 300), ("MC", "vlog_decl", 0), ("MC", "vlog_assign", 3), ("MC", "vlog_alias", 4), ("FILES", "vlog_file", 30000)]},
     "C04": {"quick": [("MC", "vlog_rt", 2), ("MC", "vlog_rt", 10, 14), ("MC", "vlog_decl", 0), ("MC", "vlog_unused", 0), ("MC", "vlog_assign", 1), ("MC", "vlog_alias", 3), ("FILES", "vlog_rt", 6000)],
@@ -51,14 +51,15 @@ IR_RUNS.update({
             "thorough": [("MC", "eblif_read", 4), ("MC", "eblif_rt", 3), ("MC", "eblif_latch", 4), ("MC", "eblif_latch_rt", 4), ("MC", "eblif_names", 3),
                          ("MC", "eblif_read", 12, 300), ("FILES", "eblif_file", 9000), ("FILES", "eblif_rt", 9000)]},
     "C17": {"quick": [("MC", "edif_names", 0), ("MC", "edif_reexport", 0)], "thorough": [("MC", "edif_names", 0), ("MC", "edif_reexport", 0)]},
-    "C05": {"quick": [("MC", "edif_read", 2), ("MC", "edif_read1", 1), ("MC", "edif_read", 10, 8), ("MC", "edif_read_br", 1), ("MC", "edif_read2", 1), ("FILES", "edif_file", 12000)],
-            "thorough": [("MC", "edif_read", 3), ("MC", "edif_read1", 3), ("MC", "edif_read", 12, 200), ("MC", "edif_read_br", 2), ("FILES", "edif_file", 40000)]},
-    "C03": {"quick": [("MC", "edif_rt", 3), ("MC", "edif_rt2", 2), ("MC", "edif_rt", 10, 40), ("MC", "edif_rt_br", 1), ("MC", "edif_reexport", 0), ("FILES", "edif_rt", 4000)],
-            "thorough": [("MC", "edif_rt", 4), ("MC", "edif_rt1", 4), ("MC", "edif_rt", 12, 1500), ("MC", "edif_rt_br", 2), ("MC", "edif_reexport", 0), ("FILES", "edif_rt", 40000)]},
+    "C05": {"quick": [("MC", "edif_read", 2), ("MC", "edif_read1", 1), ("MC", "edif_read", 10, 8), ("MC", "edif_read_br", 1), ("MC", "edif_read2", 1), ("MC", "edif_read_case", 0), ("FILES", "edif_file", 12000)],
+            "thorough": [("MC", "edif_read", 3), ("MC", "edif_read1", 3), ("MC", "edif_read", 12, 200), ("MC", "edif_read_br", 2), ("MC", "edif_read_case", 0), ("FILES", "edif_file", 40000)]},
+    "C03": {"quick": [("MC", "edif_rt", 3), ("MC", "edif_rt2", 2), ("MC", "edif_rt", 10, 40), ("MC", "edif_rt_br", 1), ("MC", "edif_rt_case", 0), ("MC", "edif_reexport", 0), ("FILES", "edif_rt", 4000)],
+            "thorough": [("MC", "edif_rt", 4), ("MC", "edif_rt1", 4), ("MC", "edif_rt", 12, 1500), ("MC", "edif_rt_br", 2), ("MC", "edif_rt_case", 0), ("MC", "edif_reexport", 0), ("FILES", "edif_rt", 40000)]},
     "C20": {"quick": [("MC", "compare", 0)], "thorough": [("MC", "compare", 0)]},
-    "C13": {"quick": [("MC", "query", 1), ("MC", "query_edif", 0), ("MC", "query_nons", 0)], "thorough": [("MC", "query", 30), ("MC", "query_edif", 0), ("MC", "query_nons", 0)]},
-    "C08": {"quick": [("MC", "xf", 3), ("MC", "xf_port", 4), ("MC", "xf", 12, 40), ("MC", "xf_late", 12, 40), ("MC", "xf_port2", 12, 40), ("MC", "xf4", 2)],
-            "thorough": [("MC", "xf", 5), ("MC", "xf_port", 11), ("MC", "xf", 14, 1500), ("MC", "xf_late_port", 4), ("MC", "xf_late", 14, 600), ("MC", "xf_port2", 14, 600), ("MC", "xf4", 4)]},
+    "C13": {"quick": [("MC", "query", 1), ("MC", "query_edif", 0), ("MC", "query_edif_ref", 0), ("MC", "query_nons", 0)],
+            "thorough": [("MC", "query", 30), ("MC", "query_edif", 0), ("MC", "query_edif_ref", 0), ("MC", "query_nons", 0)]},
+    "C08": {"quick": [("MC", "xf", 3), ("MC", "xf_port", 4), ("MC", "xf", 12, 40), ("MC", "xf_late", 12, 40), ("MC", "xf_port2", 12, 40), ("MC", "xf4", 2), ("MC", "xf_noport", 2), ("MC", "xf_unnamed", 1)],
+            "thorough": [("MC", "xf", 5), ("MC", "xf_port", 11), ("MC", "xf", 14, 1500), ("MC", "xf_late_port", 4), ("MC", "xf_late", 14, 600), ("MC", "xf_port2", 14, 600), ("MC", "xf4", 4), ("MC", "xf_noport", 4), ("MC", "xf_unnamed", 3)]},
     "C09": {"quick": [("MC", "xf", 2), ("MC", "xf_port", 6), ("MC", "xf", 12, 30), ("MC", "xf_noport", 2), ("MC", "xf_edif", 0)],
             "thorough": [("MC", "xf", 5), ("MC", "xf_port", 11), ("MC", "xf", 14, 1500), ("MC", "xf_late", 14, 600), ("MC", "xf_noport", 4), ("MC", "xf_edif", 0)]},
     "C12": {"quick": [("MC", "hier12", 3), ("MC", "hier12", 12, 60), ("MC", "hier12_pos", 12, 60), ("MC", "hier12_ft", 3), ("MC", "hier12_pt", 3), ("MC", "hier_deep", 0), ("MC", "hier12_walk", 10, 30)],
